@@ -24,11 +24,11 @@ def explore(ctx):
     ctx.rule = ('catalogue of every copy/add/sub/mul _batch/_avx/_avx512 helper declared in class Goldilocks (comments removed, pure lane kernels excluded), matched to its definition; '
                 'spec by rule from name + parameter list (engine/ovl/decls.py); one generated wrapper per overload. state = (overload, stride/index configuration, value pass); '
                 'transition = one call; per call: lane k of the result (register, contiguous, strided or indexed) == (a op b) mod p on the k-th designated operands, every other position of the '
-                'result arena keeps its sentinel, inputs / index arrays unchanged; ASan build: inputs are exact-size heap blocks. '
+                'result arena keeps its sentinel, inputs / index arrays unchanged; alias forms (result object == operand object, both operands one object) judged against a snapshot of the operands taken before the call; ASan build: inputs are exact-size heap blocks. '
                 'parcpy/parSetZero: state = (function, size, thread argument); destination element-wise, guard zones / exact heap blocks around it, source unchanged. '
                 'non-trivial = non-unit stride, non-identity index array, non-canonical operand; for parcpy: thread argument < 1, > size or not dividing size')
     ctx.assumptions = ['the intended semantics of a helper is what its name and parameters promise under the rule of engine/ovl/decls.py; helpers the rule cannot classify or that have no definition are reported uncovered',
-                       'result carriers are not enumerated with colliding lanes (stride 0, repeated indices) and never alias an input',
+                       'result carriers are not enumerated with colliding lanes (stride 0, repeated indices); aliasing only in the whole-object forms listed per overload (c:a, c:b, a:b, c:a:b: same register object / same array with identical designated positions), never partially overlapping',
                        'operand values: finite boundary alphabet in every position and relative rotation; lane arithmetic itself is the subject of C02/C11',
                        'parcpy/parSetZero: sizes {0..40,63,64,65,1000} x thread arguments {INT_MIN,-1,0,1,2,3,7,64,size,size+1}; real OpenMP runtime, one schedule per call (no schedule enumeration: chunks are disjoint by construction)']
     ovlcheck.explore(ctx, 'C17')
